@@ -13,7 +13,7 @@ from .extract import ClassInfo
 from . import exprs
 from .exprs import VExpr, VESeq, VDist, VAnyZero
 from .values import (freeze, NONE, OutOfSubset, V, VBool, VComp, VDict, VFam, VFunc, VGraph, VInt, VModule, VNode, VNone, VNx,
-                     VObj, VOpaque, VPos, VSeq, VSet, VStr, VTuple)
+                     VObj, VOpaque, VPos, VSeq, VSet, VStr, VTuple, VFStr, VAttrs)
 
 BUILTINS = {"set", "frozenset", "list", "tuple", "sorted", "any", "all", "len", "isinstance", "iter", "next", "min",
             "max", "sum", "range", "enumerate", "zip", "dict", "str", "bool", "int", "print", "ValueError", "TypeError",
@@ -250,6 +250,13 @@ def set_item(ex, obj, key, value):
 
 def get_item(ex, base, key):
     L = ex.L
+    if isinstance(base, VAttrs) and isinstance(key, VStr):
+        h = base.nx.nattrs.get(key.s)
+        if h is None:
+            ex.require(L.F(), "KeyError", "node-attribute")
+            raise OutOfSubset("unreachable")
+        ex.require(h[0](base.node_t), "KeyError", "node-attribute")
+        return VBool(h[1](base.node_t))
     if isinstance(base, VDict) and isinstance(key, VNode) and base.val is not None:
         ex.require(base.dom(key.t), "KeyError", "getitem")
         return base.val(key.t)
@@ -413,6 +420,9 @@ def compare(ex, l, op, r):
 
 def member(ex, l, r):
     L = ex.L
+    if isinstance(r, VAttrs) and isinstance(l, VStr):
+        h = r.nx.nattrs.get(l.s)
+        return h[0](r.node_t) if h is not None else L.F()
     if isinstance(r, VGraph):
         # NxMixedGraph.__contains__ is y0 code
         m = ex.repo.find_method(ex.repo.resolve("y0.graph.NxMixedGraph"), "__contains__")
@@ -554,6 +564,17 @@ def compare(ex, l, op, r):   # noqa: F811  (wraps the structural compare with le
 def construct(ex, cls: ClassInfo, args, kwargs):
     L = ex.L
     q = cls.qualname
+    if q == "y0.dsl.Variable" and len(args) == 1 and not kwargs and isinstance(args[0], VFStr):
+        ints = [p_ for p_ in args[0].parts if isinstance(p_, VInt)]
+        if len(ints) == 1 and all(isinstance(p_, (str, VStr, VInt, VNone)) or p_ is None for p_ in args[0].parts):
+            # Variable(f"{prefix}{i}"): distinct integers give distinct names.  Freshness w.r.t. the user's nodes is a precondition
+            # stated by the contracts that use it.
+            gen = z3.Function("generated_variable", z3.IntSort(), L.Node)
+            L.add_axioms({"generated_variable"}, [z3.ForAll([z3.Int("gi"), z3.Int("gj")], z3.Implies(gen(z3.Int("gi")) == gen(z3.Int("gj")), z3.Int("gi") == z3.Int("gj"))),
+                                                  z3.ForAll([z3.Int("gi")], z3.And(z3.Not(L.is_intervention(gen(z3.Int("gi")))), z3.Not(L.is_cf(gen(z3.Int("gi"))))))])
+            ex.assumption_notes.add("Variable(f'{prefix}{i}') yields pairwise distinct variables for distinct integers i (string formatting of integers is injective)")
+            return VNode(gen(ints[0].t))
+        raise OutOfSubset("Variable() of a formatted string")
     if q.startswith("y0.dsl.") and ex.repo.is_subclass(cls, "y0.dsl.Expression"):
         return exprs.expr_construct(ex, cls, args, kwargs)
     if q == "y0.graph.NxMixedGraph":
@@ -684,6 +705,30 @@ def call_builtin(ex, name, args, kwargs):
             m = ex.repo.find_method(ex.repo.resolve("y0.graph.NxMixedGraph"), "__len__")
             return ex.call_y0(m, [], {}, self_val=a)
         return VLen(a)
+    if name == "enumerate":
+        coll = args[0]
+        start = kwargs.get("start", args[1] if len(args) > 1 else VInt(0))
+        if not isinstance(start, VInt):
+            raise OutOfSubset("enumerate with a non-integer start")
+        out = []
+        for consts, guard, elt in ex.comp_alts(coll):
+            idx = z3.Function(L.fresh_name("position"), *([c.sort() for c in ex.binders] + [c.sort() for c in consts]), z3.IntSort())
+            bs = list(ex.binders)
+            # positions are pairwise distinct (injective on the enumerated elements) and non-negative
+            if consts:
+                other = [z3.Const(L.fresh_name("o"), c.sort()) for c in consts]
+                L.add_axioms({idx.name()}, [L.forall_c(bs + list(consts) + other, L.Implies(idx(*bs, *consts) == idx(*bs, *other), L.And(*[a == b for a, b in zip(consts, other)]))),
+                                            ])
+            # `start` is a constant offset: position + start is again an injective function of the element, so the offset is folded
+            # into the symbol (keeps the verification conditions free of arithmetic)
+            out.append((list(consts), guard, VTuple([VInt(idx(*bs, *consts)), elt])))
+        ex.assumption_notes.add("enumerate() over a collection without duplicates: positions are an injective function of the element (their order is not used)")
+        c = VComp(None, None, None, kind="gen")
+        c.alts = out
+        return c
+    if name == "sorted" and args and isinstance(args[0], VSet) and args[0].arity == 2 and not kwargs:
+        ex.assumption_notes.add("sorted() of a list of pairs: a permutation (only membership and enumerate positions are used)")
+        return args[0]
     if name == "sorted":
         key = kwargs.get("key")
         if key is not None:
@@ -1021,8 +1066,13 @@ def call_method(ex, obj, name, args, kwargs):
             old = obj.pred
             obj.set_pred(lambda x: L.And(old(x), x != it.t))
             return NONE
-        if name in ("items", "values") and hasattr(obj, "nx_view"):
-            raise OutOfSubset("node data view")
+        if name in ("items", "values") and hasattr(obj, "nx_view") and obj.nx_view[1] == "nodes":
+            g = obj.nx_view[0]
+            n = L.node("nd")
+            c = VComp(None, None, None, kind="gen")
+            elt = VAttrs(g, n) if name == "values" else VTuple([VNode(n), VAttrs(g, n)])
+            c.alts = [([n], g.N(n), elt)]
+            return c
         raise OutOfSubset(f"set method {name}")
     if isinstance(obj, VSeq):
         if name == "index":
@@ -1057,6 +1107,13 @@ def _set_nattr(ex, g, tag, node_t, val):
     L = ex.L
     if not isinstance(val, VBool):
         raise OutOfSubset("non-boolean node attribute")
+    if g.tracked:
+        # inside a loop body: recorded as a delta (tag, node, value); applied by the loop summary
+        v0 = z3.simplify(val.t)
+        if not (z3.is_true(v0) or z3.is_false(v0)):
+            raise OutOfSubset("node attribute set to a non-constant value inside a loop")
+        g.nattr_delta = getattr(g, "nattr_delta", []) + [(tag, node_t, z3.is_true(v0))]
+        return
     old = g.nattrs.get(tag)
     v = val.t
     if old is None:
